@@ -120,7 +120,8 @@ func generateRequiredFieldsSnippet(label string, bodySchema *schema.BodySchema, 
 	}
 
 	// get all required fields and build final snippet
-	snippetText += requiredFieldsSnippet(bodySchema, placeholder, indentCount)
+	fieldsSnippet, _ := requiredFieldsSnippet(bodySchema, placeholder, indentCount)
+	snippetText += fieldsSnippet
 
 	// add a final tabstop so that the user is landed in the correct place when
 	// they are finished tabbing through each field
@@ -133,10 +134,12 @@ func generateRequiredFieldsSnippet(label string, bodySchema *schema.BodySchema, 
 // fields (attributes, blocks). It recurses through the Body schema to
 // ensure nested fields are accounted for. It takes care to add newlines and
 // tabs where necessary to have a snippet be formatted correctly in the target client
-func requiredFieldsSnippet(bodySchema *schema.BodySchema, placeholder int, indentCount int) string {
+// requiredFieldsSnippet returns the snippet for all required fields of the body
+// and the next unused placeholder number.
+func requiredFieldsSnippet(bodySchema *schema.BodySchema, placeholder int, indentCount int) (string, int) {
 	// there are edge cases where we might not have a body, end early here
 	if bodySchema == nil {
-		return ""
+		return "", placeholder
 	}
 
 	snippetText := ""
@@ -171,7 +174,8 @@ func requiredFieldsSnippet(bodySchema *schema.BodySchema, placeholder int, inden
 		// We could plumb through the context here, but it saves us
 		// an argument in multiple functions above.
 		ctx := schema.WithPrefillRequiredFields(context.Background(), true)
-		snippet = attr.Constraint.EmptyCompletionData(ctx, placeholder, indentCount).Snippet
+		cData := attr.Constraint.EmptyCompletionData(ctx, placeholder, indentCount)
+		snippet = cData.Snippet
 		snippetText += fmt.Sprintf("%s%s = %s", indent, attrName, snippet)
 
 		// attrCount is used to tell if we are at the end of the list of attributes
@@ -181,7 +185,10 @@ func requiredFieldsSnippet(bodySchema *schema.BodySchema, placeholder int, inden
 		if attrCount <= reqAttr {
 			snippetText += "\n"
 		}
-		placeholder++
+		// a constraint may use several placeholders (or none)
+		if cData.NextPlaceholder > placeholder {
+			placeholder = cData.NextPlaceholder
+		}
 	}
 
 	// iterate over each block, skip if not required, and print snippet
@@ -205,12 +212,14 @@ func requiredFieldsSnippet(bodySchema *schema.BodySchema, placeholder int, inden
 		snippetText += fmt.Sprintf("%s%s%s {\n", indent, blockType, labels)
 		// we increment indentCount by 1 to indicate these are nested underneath
 		// recurse through the body to find any attributes or blocks and print snippet
-		snippetText += requiredFieldsSnippet(blockSchema.Body, placeholder, indentCount+1)
+		var nestedSnippet string
+		nestedSnippet, placeholder = requiredFieldsSnippet(blockSchema.Body, placeholder, indentCount+1)
+		snippetText += nestedSnippet
 		// final newline is needed here to properly format each block
 		snippetText += fmt.Sprintf("%s}\n", indent)
 	}
 
-	return snippetText
+	return snippetText, placeholder
 }
 
 func sortedSchemaKeys(m map[schema.SchemaKey]*schema.BodySchema) []schema.SchemaKey {
